@@ -12,6 +12,10 @@ CLAIMED = {
          "Both readers run on every string of length <=5 (quick) / <=7 (thorough) over 16 class representatives and on generated/mutated/corpus documents; whenever both accept, paragraph structure, field names and non-blank value lines are compared; generated well-formed documents must be accepted by both and match the generator's model."),
  "C08": ("reference-model oracle: generated canonical lossy documents printed and re-read by both readers; list-model state machine over get/set/insert/remove histories; exhaustive small catalogue",
          "Each generated lossy document is printed, re-read by the lossy reader (equality, identical second print, exactly one blank line between paragraphs) and by the lossless reader (same content); edit histories over colliding names are checked step by step against a Vec<(name,value)> model."),
+ "C04": ("model-based state-machine monitor over edit histories: list model, live/early-handle/fresh-handle reads, strict re-read and byte-level locality via an independent line scanner after every step; random histories + exhaustive short-history catalogue",
+         "After every set/insert/remove/rename the live items (through the handle used, handles taken before the history and a fresh traversal), the strict re-read of the printed document and the bytes outside the touched field are compared with a Vec<Vec<(name,value)>> model; histories start from generated documents of every layout, from programmatically built paragraphs, and all histories of length <=2 (quick) / <=3 (thorough) over a 6-document catalogue are enumerated."),
+ "C05": ("model-based state-machine monitor over paragraph add/insert/remove histories interleaved with field edits: list model, re-read, other-paragraph and comment preservation via an independent line scanner; random histories + exhaustive catalogue",
+         "After every add/insert(i)/remove(i) (every index incl. beyond the end) the live paragraph list, the strict re-read, the text of all other paragraphs and the ordered comment lines are compared with the model; returned handles are kept and checked later; histories start from the empty document and generated documents of every layout; all histories of length <=3 (quick) / <=4 (thorough) over an 18-operation alphabet on 7 start documents are enumerated."),
 }
 TODO = {}
 props = [json.loads(l) for l in open("/verif/properties.jsonl")]
